@@ -286,6 +286,70 @@ pub fn bad_case() -> impl Strategy<Value = Bad> {
         1 => (any_addr(), "[a-z -]{0,20}").prop_map(|(a, g)| Bad::Garbage(a, g)),
     ]
 }
+// ---- byte decoders for the coverage-guided stage: same shapes and ranges as the strategies above ----------
+fn addr_dec(u: &mut arbitrary::Unstructured) -> arbitrary::Result<Addr> {
+    Ok(if u.ratio(2u8, 3u8)? {
+        Addr::V4(u.arbitrary()?, u.arbitrary()?)
+    } else {
+        let port = match u.int_in_range(0u8..=4)? {
+            0 => 0u16,
+            1 => 80,
+            2 => 443,
+            3 => 65535,
+            _ => u.arbitrary()?,
+        };
+        let t: [u16; 8] = u.arbitrary()?;
+        let ip = match u.int_in_range(0u8..=7)? {
+            0 => [0, 0, 0, 0, 0, 0, 0, 1],
+            1 => [0; 8],
+            2 => [0, 0, 0, 0, 0, 0xffff, t[0], t[1]],
+            3 => [0xfe80, 0, 0, 0, t[0], t[1], t[2], t[3]],
+            4 => [0xfd00, 0, 0, 0, 0, 0, t[0], t[1]],
+            5 => [0x2001, t[0], t[1], t[2], t[3], t[4], t[5], t[6]],
+            6 => [0x2001, 0x0db8, 0, 0, 0, 0, t[0], t[1]],
+            _ => t,
+        };
+        Addr::V6(ip, port)
+    })
+}
+pub fn decode_addr(data: &[u8]) -> Option<Case> {
+    let mut u = arbitrary::Unstructured::new(data);
+    let r: arbitrary::Result<Case> = (|| {
+        let variant = match u.int_in_range(0u8..=7)? {
+            0..=2 => Variant::AsIs,
+            3 => Variant::Spaces,
+            4 => Variant::Upper,
+            5 => Variant::Mixed,
+            6 => Variant::Padded,
+            _ => Variant::DoubleSep,
+        };
+        Ok(Case { addr: addr_dec(&mut u)?, variant })
+    })();
+    r.ok()
+}
+pub fn decode_bad(data: &[u8]) -> Option<Bad> {
+    let mut u = arbitrary::Unstructured::new(data);
+    let r: arbitrary::Result<Bad> = (|| {
+        Ok(match u.int_in_range(0u8..=7)? {
+            0 | 1 => Bad::Truncated(addr_dec(&mut u)?, u.arbitrary()?),
+            2 => Bad::Words3(addr_dec(&mut u)?),
+            3 => Bad::Words5(addr_dec(&mut u)?),
+            4 => Bad::PortOverflow(Addr::V4(u.arbitrary()?, u.arbitrary()?), u.arbitrary()?),
+            5 => Bad::OpenParen(addr_dec(&mut u)?),
+            6 => {
+                let a = addr_dec(&mut u)?;
+                let n = u.len().min(20);
+                Bad::Garbage(a, u.bytes(n)?.iter().map(|b| (b"abcdefghijklmnopqrstuvwxyz -")[*b as usize % 28] as char).collect())
+            }
+            _ => {
+                let n = u.len().min(200);
+                Bad::Random(String::from_utf8_lossy(u.bytes(n)?).chars().take(200).collect())
+            }
+        })
+    })();
+    r.ok()
+}
+
 pub fn check_one(c: &Case) -> Verdict {
     check_addr(c)
 }
